@@ -454,7 +454,9 @@ def legacy_step(eng, cfg, message, loop_state=None, expr_result=None, clock=None
                 r._fields["last"] = res
                 if res == "raises":
                     raise exc("UserException", "bad expression")
-                return res == "true"
+                # an expression's value is used for its truth, and is not necessarily a bool: 1 / 0 here, so that code
+                # comparing with `is True` / `is False` does not pass for the wrong reason
+                return 1 if res == "true" else 0
             return Coro(th, f"{tag}.eval")
         r._fields["eval"] = ev
         r._fields["log_exception"] = lambda i, e: w.emit("log_exception", tag)
@@ -658,7 +660,7 @@ def new_step(eng, cfg, message=None, fields=None, timeout_fires=False, vclock=No
             expr_state["last"] = res
             if res == "raises":
                 raise exc("UserException", "bad")
-            return res == "true"
+            return 1 if res == "true" else 0     # truth value, not necessarily a bool
         return Coro(th, "expr.eval")
     expr = Rec(fields={"eval": ev}, name="expr") if cfg.get("has_expr", True) else None
     f = {"args": ["expr"], "kwargs": cfg.get("kwargs", {}), "dm": dm, "name": "state_trigger", "_ast_expression": expr,
